@@ -37,6 +37,10 @@ type scenario struct {
 	Preset   int    `json:"preset"`
 	// optional overrides of single options of the preset (exploration / replay): CompatThreshold, BabiesStolen, ...
 	Override map[string]float64 `json:"override,omitempty"`
+	// C17 only: re-seed the global source before every epoch (so that perturbed processes may do unrelated evolution
+	// BETWEEN the epochs as well); run the scenario through experiment.Execute instead of calling NextEpoch directly
+	Reseed bool   `json:"reseed,omitempty"`
+	Via    string `json:"via,omitempty"`
 }
 
 func (sc scenario) options() *neat.Options {
